@@ -186,7 +186,8 @@ CHECKS = {
              "every enum table; tied to the code by fail-closed translators and an exhaustive implementation-vs-extracted-"
              "model correspondence. Hit points: exact fixed-point theorems (both directions, quotient exact, within the "
              "28-digit Decimal context) for all raw values; AI tags: number->rich->number for EVERY u32 whose bytes are "
-             "valid UTF-8, member iff exact tag, injectivity - on top of a proved UTF-8 decode/encode round trip; both "
+             "valid UTF-8, member iff exact tag, injectivity, and rich->number->rich (the number a script is written as decodes again to a "
+             "script of the same name) - on top of a UTF-8 model proved to round-trip in BOTH directions for all code points; both "
              "tied by an exact-shape translator (translate_scalars.py) and correspondence on dense + boundary + "
              "neighbourhood inputs.",
         ref="DESIGN.md 5.4",
